@@ -23,6 +23,8 @@ claimed = {
          "Bounds: histories of 3 (quick) / 4-5 (thorough) operations; domain: reply-waiting commands only when no NoWait ACK is outstanding; sequential Close only in this job."),
  "C18": ("NetlinkClient.Send/Receive and parseNetlinkAuditMessage executed symbolically with the socket syscalls replaced by harness stubs: header length/type/flags/pid/sequence and verbatim payload for all header values; sequence increases by one; 2-3 concurrent senders explored over every interleaving at synchronisation operations with vector-clock race detection; Receive for every datagram length 0..24 (thorough 0..64, 8986) x sender kinds x writer kinds: error and no data for short or non-kernel datagrams, exact bytes to the parser otherwise.",
          "Socket syscalls are stubs, so counterexamples are confirmed in the engine's concrete mode, not natively. Real sockets (NETLINK_ROUTE/USERSOCK observations) are outside."),
+ "C05": ("ParseLogLine / Parse / Data / Tags / ToMapStr executed symbolically on every ASCII input within the length bounds (whole lines, bodies per enrichment path, key=<v> templates for every key an enrichment step reads, saddr hex of threshold lengths): every Go run-time fault is a feasible path the solver must refute, every path must end within its unwinding bound, err/msg agreement, error key in ToMapStr, repeated calls equal.",
+         "Bounds: lines <=5 (thorough 7) bytes, bodies <=5-6 (7) bytes, field values <=4 (5) bytes, saddr up to 49 hex digits with 12 symbolic; ASCII only; regexp, fmt, strconv.Parse* are engine summaries validated by native replay of sampled paths."),
 }
 props=[json.loads(l)['id'] for l in open('/verif/properties.jsonl')]
 checks=[]
